@@ -20,7 +20,7 @@ func mainLoop(L *LState, baseframe *callFrame) {
 			// the body of this coroutine is a Go function: hand what it
 			// returns (or yields) to the resumer
 			if n := L.currentFrame.Fn.GFunction(L); n < 0 {
-				switchToParentThread(L, L.GetTop(), false, false)
+				yieldFromGoBody(L)
 			} else {
 				switchToParentThread(L, n, false, true)
 			}
@@ -55,7 +55,7 @@ func mainLoopWithContext(L *LState, baseframe *callFrame) {
 			// the body of this coroutine is a Go function: hand what it
 			// returns (or yields) to the resumer
 			if n := L.currentFrame.Fn.GFunction(L); n < 0 {
-				switchToParentThread(L, L.GetTop(), false, false)
+				yieldFromGoBody(L)
 			} else {
 				switchToParentThread(L, n, false, true)
 			}
@@ -123,6 +123,23 @@ func switchToParentThread(L *LState, nargs int, haserror bool, kill bool) {
 	if kill {
 		L.kill()
 	}
+}
+
+// yieldFromGoBody suspends a coroutine whose body is a Go function that
+// yielded. A Go function cannot be continued where it stopped, so the values
+// given to the next resume are the results of the body: the frame stays, with
+// a function that returns everything it is given.
+func yieldFromGoBody(L *LState) {
+	parent := L.Parent
+	nargs := L.GetTop()
+	L.G.CurrentThread = parent
+	L.Parent = nil
+	if !L.wrapped {
+		parent.Push(LTrue)
+	}
+	L.XMoveTo(parent, nargs)
+	L.currentFrame.Fn = newLFunctionG(func(L *LState) int { return L.GetTop() }, L.currentFrame.Fn.Env, 0)
+	L.yieldNRet = MultRet
 }
 
 func callGFunction(L *LState, tailcall bool, baseframe *callFrame) bool {
